@@ -159,6 +159,12 @@ def actions(c):
         c.a = c.a.scale(2.0); c.sh["a"] = 2 * c.sh["a"]
     def scj():
         c.a = c.a.scale(0.6 + 0.8j); c.sh["a"] = (0.6 + 0.8j) * c.sh["a"]
+    def sc0d():
+        z = np.array(0.6 - 0.8j)                      # a complex factor held in a 0-d array
+        c.a = c.a.scale(z); c.sh["a"] = complex(z) * c.sh["a"]
+    def sc64():
+        z = np.complex64(0.6 + 0.8j)                  # ... in single precision
+        c.a = c.a.scale(z); c.sh["a"] = complex(z) * c.sh["a"]
     def scin():
         r = c.b.scale(-1.5, inplace=True); c.sh["b"] = -1.5 * c.sh["b"]
         assert r is c.b
@@ -194,7 +200,7 @@ def actions(c):
         c.a = c.a.to_complex()
     def norm_():
         c.a.normalize("ttns_norm_to_coeff")
-    for k, f in (("a=a.add(b)", add_ab), ("a=b.add(a)", add_ba), ("a=a+a", add_aa), ("a=a.scale(2)", sc2), ("a=a.scale(.6+.8j)", scj),
+    for k, f in (("a=a.add(b)", add_ab), ("a=b.add(a)", add_ba), ("a=a+a", add_aa), ("a=a.scale(2)", sc2), ("a=a.scale(.6+.8j)", scj), ("a=a.scale(0-d array .6-.8j)", sc0d), ("a=a.scale(np.complex64)", sc64),
                  ("b.scale(-1.5,inplace)", scin), ("a.coeff*=.25", coeff), ("a=H.apply(a)", applyH), ("a=H.apply(a,canonicalise)", applyHc),
                  ("b=H@b", matmulH), ("a=P.apply(a)", applyP), ("a.canonicalise()", cano), ("b.canonicalise()", canob),
                  ("a.compress(lossless)", comp), ("a.compress(per-node list = current dims)", comp_list), ("a=a.copy()", cp), ("a=a.to_complex()", cx), ("a.normalize(norm_to_coeff)", norm_)):
